@@ -86,6 +86,12 @@ pub(crate) mod verif_c17;
 #[path = "../../../verif/c19_kad.rs"]
 pub(crate) mod verif_c19;
 
+/// The C14 adapter lives inside `routing_table` (it reads private fields of `RoutingTable`).
+#[cfg(litep2p_verif)]
+pub(crate) fn verif_c14_new() -> routing_table::verif_c14::TableBox {
+    routing_table::verif_c14::TableBox::new()
+}
+
 mod schema {
     pub(super) mod kademlia {
         include!(concat!(env!("OUT_DIR"), "/kademlia.rs"));
